@@ -230,6 +230,9 @@ func (bsp *batchSpanProcessor) ForceFlush(ctx context.Context) error {
 			case <-ctx.Done():
 				return ctx.Err()
 			}
+		} else if bsp.stopped.Load() {
+			// The batchSpanProcessor is Shutdown.
+			return nil
 		}
 
 		wait := make(chan error, 1)
@@ -416,6 +419,10 @@ func (bsp *batchSpanProcessor) enqueueBlockOnQueueFull(ctx context.Context, sd R
 	case bsp.queue <- sd:
 		verifPoint("bsp.enq.sent", sd)
 		return true
+	case <-bsp.stopCh:
+		// Shutdown has begun: once the queue has been drained nothing
+		// receives from it anymore, do not block on it forever.
+		return false
 	case <-ctx.Done():
 		return false
 	}
